@@ -11,7 +11,29 @@ BASE_NOTE = ("Trusted base: TLC + CommunityModules, CPython/asyncio/ElementTree,
 CODEC_TECH = "TLA+ spec (Codec.tla) + TLC case enumeration with theorem checking; one implementation test per TLC-generated case"
 BUF_TECH = ("TLA+ spec (BufferAlgo.tla char-level + Framing.tla contract) + TLC exhaustive model checking; "
             "TLC trace validation of real Buffer calls (TraceBuffer.tla, TraceFraming.tla)")
+SYS_TECH = ("TLA+ spec (System.tla) + TLC model checking of convergence under every channel interleaving; TLC trace validation "
+            "(TraceSystem.tla) of the real composed stack pumped to quiescence")
 CHECKS = {
+    "C01": dict(
+        text="System.tla composes driver operations, the router's per-connection BLOB policy and a client whose control and BLOB connections "
+             "feed one view over four FIFO channels; TLC checks Converged at every quiescent state under every interleaving with the two "
+             "connections scheduled independently (and shows that the unfiltered BLOB connection of the unrepaired client violates it). The real "
+             "stack - generated drivers (1-3 devices, five kinds, three rules, inheritance depth <= 3, base classes instantiated too), real Router, "
+             "real server TCP handlers, real library Clients with two connections, in-process SnoopingClients (whole-device and one-property "
+             "scopes, repeated snooping) - executes random and directed histories of driver operations and client writes; a pump delivers the "
+             "bytes of all links in global send order or independently, fragmented whole / 1-byte / 1024 / randomly; after every operation the "
+             "device truth and every client's public view are projected and TraceSystem.tla checks FullView / ScopedView (state, label, group, "
+             "exactly the enabled elements, values as the format renders them, no other properties).",
+        design="6/C01", technique=SYS_TECH),
+    "C08": dict(
+        text="System.tla: BlobGenuine always, BlobConverged under global send order. Real stack: a driver publishes and a library client uploads "
+             "BLOBs of lengths 0..4096 (every length in the thorough tier, plus megabyte sizes) crossing the 1024-byte read size and the "
+             "2048-character threshold, contents cycling through all byte values, several formats, fragmented 1024 / 1-byte / randomly, to a "
+             "two-connection client and to single-connection clients with policy unset / Never / Also / Only; TraceSystem.tla demands identical "
+             "bytes, format and length exactly for the clients that enabled BLOBs, no payload for the others, the uploaded BLOB identical at "
+             "the driver, quiescence of every pump (no stall) and delivery of the traffic that follows. Losses explainable only by the recorded "
+             "deviation (message longer than the threshold on a threshold-enabled link) are reported as KNOWN-FINDING.",
+        design="6/C08", technique=SYS_TECH),
     "C02": dict(
         text="BufferAlgo.tla models buffer.py character by character over a mini-XML alphabet with its own XML recogniser (one action per "
              "critical section); TLC checks every concatenation of catalogue segments x every cut set x thresholds against Framing.tla's "
@@ -36,7 +58,10 @@ CHECKS = {
              "re-serialisation must be byte-identical.",
         design="6/C03", technique=CODEC_TECH),
     "C06": dict(
-        text="Device.tla models the driver side operationally (Vector.from_new_message child loop, set_value -> Write handlers -> setter -> "
+        text="End to end (client element assignment + submit -> serializer -> server TCP handler -> framing -> router -> driver, two clients, "
+             "random fragmentation) TraceSystem.tla checks on every client write that only the named elements of the addressed property "
+             "changed, to the values sent, and that the writer's view shows them afterwards. "
+             "Device.tla models the driver side operationally (Vector.from_new_message child loop, set_value -> Write handlers -> setter -> "
              "rule -> publication -> Change handlers); TLC checks FrameOK and TakenOK (exactly the named elements of the addressed vector of "
              "the accepting devices take the submitted values, subject only to the switch rule) for every client write in a two-device "
              "deployment from every state reachable in <= 2 (3 thorough) operations. Real generated drivers (random deployments: 1-3 devices, "
